@@ -104,6 +104,11 @@ pub fn builtin_entries() -> Vec<Entry> {
     v.push(entry_const::<&'static mut u64>("(ref u64)"));
     e!(v, "(hvec u8 0)", heapless::Vec<u8, 0>); e!(v, "(hvec u8 1)", heapless::Vec<u8, 1>); e!(v, "(hvec u8 127)", heapless::Vec<u8, 127>);
     e!(v, "(hvec u8 128)", heapless::Vec<u8, 128>); e!(v, "(hvec u8 16383)", heapless::Vec<u8, 16383>); e!(v, "(hvec u8 16384)", heapless::Vec<u8, 16384>);
+    // every boundary of the length prefix's varint width (zero-sized elements keep these cheap)
+    e!(v, "(hvec unit 127)", heapless::Vec<(), 127>); e!(v, "(hvec unit 128)", heapless::Vec<(), 128>);
+    e!(v, "(hvec unit 16383)", heapless::Vec<(), 16383>); e!(v, "(hvec unit 16384)", heapless::Vec<(), 16384>);
+    e!(v, "(hvec unit 2097151)", heapless::Vec<(), 2097151>); e!(v, "(hvec unit 2097152)", heapless::Vec<(), 2097152>);
+    e!(v, "(hvec unit 3000000)", heapless::Vec<(), 3000000>); e!(v, "(hvec unit 4194303)", heapless::Vec<(), 4194303>); e!(v, "(hvec unit 4194304)", heapless::Vec<(), 4194304>);
     e!(v, "(hvec u64 3)", heapless::Vec<u64, 3>); e!(v, "(hvec (option u16) 129)", heapless::Vec<Option<u16>, 129>);
     e!(v, "(hstring 0)", heapless::String<0>); e!(v, "(hstring 1)", heapless::String<1>); e!(v, "(hstring 127)", heapless::String<127>);
     e!(v, "(hstring 128)", heapless::String<128>); e!(v, "(hstring 16383)", heapless::String<16383>); e!(v, "(hstring 16384)", heapless::String<16384>);
@@ -130,10 +135,55 @@ macro_rules! fixstruct {
 fixstruct!(LeU16, BeU16, u16); fixstruct!(LeU32, BeU32, u32); fixstruct!(LeU64, BeU64, u64); fixstruct!(LeU128, BeU128, u128);
 fixstruct!(LeI16, BeI16, i16); fixstruct!(LeI32, BeI32, i32); fixstruct!(LeI64, BeI64, i64); fixstruct!(LeI128, BeI128, i128);
 
+/// a fixint-adapted value through every other encode / decode entry point: the adapter must not care which
+/// flavour is underneath (reader with NO scratch space and 1-byte reads, COBS, CRC, bounded slice, heapless)
+fn fix_everywhere<S: Serialize + serde::de::DeserializeOwned + PartialEq + std::fmt::Debug>(v: &S, plain: &[u8]) -> Option<String> {
+    let mut buf = vec![0u8; plain.len()];
+    if postcard::to_slice(v, &mut buf).ok().map(|b| b.to_vec()) != Some(plain.to_vec()) {
+        return Some("to_slice (exact fit) differs from to_allocvec".into());
+    }
+    if postcard::to_vec::<_, 32>(v).ok().map(|b| b.to_vec()) != Some(plain.to_vec()) || postcard::to_io(v, Vec::new()).ok() != Some(plain.to_vec()) {
+        return Some("to_vec / to_io differ from to_allocvec".into());
+    }
+    if postcard::experimental::serialized_size(v).ok() != Some(plain.len()) {
+        return Some("serialized_size differs from the encoded length".into());
+    }
+    if postcard::from_bytes::<S>(plain).ok().as_ref() != Some(v) {
+        return Some("from_bytes does not give the value back".into());
+    }
+    for one in [false, true] {
+        let mut scratch = [0u8; 0];
+        let rd = crate::ops_io::SchedReader { data: plain.to_vec(), pos: 0, fault: None, rng: Rng::new(5), whole: !one, one };
+        match postcard::from_io::<S, _>((rd, &mut scratch[..])) {
+            Ok((back, (rd, _))) if back == *v && rd.pos == plain.len() => {}
+            other => return Some(format!("from_io with an empty scratch buffer: {:?}", other.map(|(b, _)| b).map_err(|e| crate::core_ops::err_name(&e)))),
+        }
+        let mut scratch = [0u8; 0];
+        let rd = crate::ops_io::EioR(crate::ops_io::SchedReader { data: plain.to_vec(), pos: 0, fault: None, rng: Rng::new(5), whole: !one, one });
+        match postcard::from_eio::<S, _>((rd, &mut scratch[..])) {
+            Ok((back, _)) if back == *v => {}
+            other => return Some(format!("from_eio with an empty scratch buffer: {:?}", other.map(|(b, _)| b).map_err(|e| crate::core_ops::err_name(&e)))),
+        }
+    }
+    let mut framed = postcard::to_allocvec_cobs(v).ok()?;
+    if postcard::from_bytes_cobs::<S>(&mut framed).ok().as_ref() != Some(v) {
+        return Some("COBS round trip does not give the value back".into());
+    }
+    let c = crc::Crc::<u32>::new(&crc::CRC_32_ISO_HDLC);
+    let f = postcard::to_allocvec_crc32(v, c.digest()).ok()?;
+    if postcard::from_bytes_crc32::<S>(&f, c.digest()).ok().as_ref() != Some(v) {
+        return Some("CRC round trip does not give the value back".into());
+    }
+    None
+}
+
 fn fix_eval(ctx: &mut Ctx, order: &str, ty: &str, x: &str) -> Option<String> {
     macro_rules! run {
         ($t:ty, $le:ident, $be:ident) => {{
             let v: $t = x.parse().ok()?;
+            if let Some(bad) = if order == "le" { let s = $le { x: v }; let p = postcard::to_allocvec(&s).ok()?; fix_everywhere(&s, &p) } else { let s = $be { x: v }; let p = postcard::to_allocvec(&s).ok()?; fix_everywhere(&s, &p) } {
+                ctx.oracle_fail(format!("fixint {} {} {}: {}", order, stringify!($t), x, bad));
+            }
             let (bytes, want, back_ok) = if order == "le" {
                 let b = postcard::to_allocvec(&$le { x: v }).ok()?;
                 let back = postcard::take_from_bytes::<$le>(&[&b[..], &[0x99][..]].concat()).map(|(s, r)| s.x == v && r == [0x99]).unwrap_or(false);
